@@ -402,6 +402,10 @@ def api_spellings(ctx):
             steps = [(nm, OrderedDict()) for nm in names] + [("use %d" % i, OrderedDict([("One", nm)])) for i, nm in enumerate(names)]
             steps.append(("use all", OrderedDict([("Many", list(names)), ("Nested", [[names[-1]], [names[0]]])])))
             rng.shuffle(steps)
+            # what every command names, taken down before the structures are handed over (they are the caller's; whatever becomes of them later is not consulted)
+            import copy
+            shown = [[r, copy.deepcopy(dict(a))] for r, a in steps]
+            wants = dict((res, sorted([args["One"]] if "One" in args else []) if "Many" not in args else sorted(args["Many"] + [g[0] for g in args["Nested"]])) for res, args in steps)
             rec = progrun.Recorder()
             with progrun.stubbed([m.N], rec):
                 try:
@@ -416,7 +420,7 @@ def api_spellings(ctx):
                     out = progrun.classify(e)
             ctx.case("api-spellings %r %r" % (names, [st[0] for st in steps]), sample=None)
             ctx.count("api_spelling_cases")
-            desc = {"built_with": "Program.add_command(N, result_name, arguments) in this order, then run(), a result read, run()", "commands": [[r, dict(a)] for r, a in steps]}
+            desc = {"built_with": "Program.add_command(N, result_name, arguments) in this order, then run(), a result read, run()", "commands": shown}
             if out != "ok":
                 ctx.fail("a well-formed model over the result names %r failed: %s" % (names, out), desc)
                 continue
@@ -426,7 +430,7 @@ def api_spellings(ctx):
                 ctx.fail("command %r executed %d times (expected exactly once)" % (bad[0], starts.count(bad[0])), desc)
                 continue
             for res, args in steps:
-                want = sorted([args["One"]] if "One" in args else []) if "Many" not in args else sorted(args["Many"] + [g[0] for g in args["Nested"]])
+                want = wants[res]
                 got = sorted(prod for consumer, prod, _f, _i in rec.reads if consumer == res)
                 if got != want:
                     ctx.fail("%r names the results %r but read the results of %r" % (res, want, got), desc)
@@ -607,6 +611,259 @@ def scale_ladder(ctx):
         gc.collect()
 
 
+def _history(ctx, w, ops, steps, must, what, tolerated=()):
+    """runs the steps [(text, callable)] of one case built in the world w; every step of an acyclic well-formed model must succeed (or end with one of the
+    `tolerated` exception objects: an interruption planted by the case); then the bodies' log must satisfy C01 (apihist.World.problems)"""
+    desc = w.describe(ops)
+    for text, step in steps:
+        ops.append(text)
+        try:
+            step()
+        except BaseException as e:          # noqa (interruptions are BaseExceptions)
+            if any(e is t for t in tolerated):
+                ops[-1] += "   -> interrupted by %s" % type(e).__name__
+                continue
+            ops[-1] += "   -> %s" % progrun.classify(e)
+            ctx.fail("%s: an acyclic well-formed model failed at `%s` with %s" % (what, text, progrun.classify(e)), w.describe(ops))
+            return False
+    bad = w.problems(must)
+    if bad:
+        ctx.fail("%s: %s" % (what, bad[0]), dict(w.describe(ops), all_problems=bad[:6]))
+    return not bad
+
+
+def foreign_objects(ctx):
+    """add_command takes Command objects as references.  The object need not be the command registered under that name in the consuming program: a sub-result
+    shared from another Program (run there already or not), a free-standing Command (pre-computed or not) - directly, in a list, in a nested list, with or
+    without a command of the same name in the consuming program.  The consumer is fed by the finished result of exactly the object it was given, that command
+    executes once (with its own dependencies, in its own program), nothing executes twice, and running / reading again executes nothing"""
+    from .. import apihist
+    rng = ctx.rng
+    for kind in ("a command of another program", "a command of another program that has run", "a free-standing command", "a free-standing command that has finished"):
+        for collide in (False, True):
+            for via in ("One", "Many", "Nested", "One+Many", "Two+Nested"):
+                for consumer_first in ((False, True) if collide else (False,)):
+                    w = apihist.World()
+                    if kind.startswith("a command of another"):
+                        other = w.program("other")
+                        deep = w.add(other, "Deep", 100)
+                        foreign = w.add(other, "Base", 10, one=deep) if rng.random() < 0.5 else w.add(other, "Base", 10, many=[deep])
+                        if kind.endswith("has run"):
+                            other.run()
+                            w.built.append("other.run()")
+                    else:
+                        deep = w.free("Deep", 100)
+                        foreign = w.free("Base", 10, one=deep)
+                        if kind.endswith("finished"):
+                            foreign.result
+                            w.built.append("Base.result")
+                    q = w.program("q")
+                    own = w.add(q, "Own", 3)
+                    ns = w.add(q, "Base", 1) if collide and not consumer_first else None
+                    t = w.add(q, "T", 1000, one=foreign if via in ("One", "One+Many") else None, two=foreign if via == "Two+Nested" else None,
+                              many=[own, foreign] if via in ("Many", "One+Many") else None, nested=[[own], [foreign, own]] if via in ("Nested", "Two+Nested") else None,
+                              by=lambda r: "object" if r is foreign else rng.choice(["name", "object"]))
+                    if collide and consumer_first:
+                        ns = w.add(q, "Base", 1)
+                    top = w.add(q, "Top", 0, one=t, many=[own])
+                    ops = []
+                    steps = [("q.run()", q.run)]
+                    ctx.case("foreign %s %s %s %s" % (kind, collide, via, consumer_first), sample=None)
+                    ctx.count("foreign_object_cases")
+                    what = "%s handed to add_command as the value of %s%s" % (kind, via, " (the consuming program has a command of that name too)" if collide else "")
+                    if not _history(ctx, w, ops, steps, [own, t, top, foreign, deep], what):
+                        continue
+                    if ns is not None and not w.entered(ns):
+                        ctx.count("foreign_object_namesake_not_started_by_run")     # (a direct reference is keyed by name in run(): the namesake counts as consumed)
+                    n_events = len(w.m.EVENTS)
+                    more = [("%s.result" % c.result_name, (lambda c=c: c.result)) for c in [t, top, foreign] + ([ns] if ns is not None else [])] + [("q.run()", q.run)]
+                    if _history(ctx, w, ops, more, [own, t, top, foreign, deep] + ([ns] if ns is not None else []), what):
+                        again = [x for k, x in w.m.EVENTS[n_events:] if k == "+" and not (x is ns and not any(y is ns for _k, y in w.m.EVENTS[:n_events]))]
+                        if again:
+                            ctx.fail("%s: reading results and running again executed %r" % (what, [w.who(x) for x in again]), w.describe(ops))
+    # random models spread over two programs and free-standing commands: references inside a program by name or object, across by object
+    for _ in range(ctx.budget(15, 600)):
+        w = apihist.World()
+        progs = [w.program("P0"), w.program("P1")]
+        made = []
+        for i in range(rng.randrange(3, 9)):
+            deps = rng.sample(made, rng.randrange(0, min(len(made), 3) + 1))
+            home = rng.choice(progs + [None]) if i else progs[0]
+            rng.shuffle(deps)
+            one = deps.pop() if deps and rng.random() < 0.6 else None
+            if home is None:
+                made.append(w.free("c%d" % i, rng.randrange(1, 1000), one=one, many=deps or None))
+                continue
+            two = deps.pop() if deps and rng.random() < 0.3 else None
+            nested = [deps[:1], deps[1:]] if deps and rng.random() < 0.4 else None
+            made.append(w.add(home, "c%d" % i, rng.randrange(1, 1000), one=one, two=two, many=deps if deps and nested is None else None, nested=nested,
+                              by=lambda r, home=home: "object" if getattr(r, "program", None) is not home else rng.choice(["name", "object"])))
+        order = list(progs)
+        rng.shuffle(order)
+        steps = []
+        for p_ in order:
+            if rng.random() < 0.3:
+                c = rng.choice(made)
+                steps.append(("%s.result" % c.result_name, (lambda c=c: c.result)))
+            steps.append(("%s.run()" % p_.label, p_.run))
+        steps += [("%s.result" % c.result_name, (lambda c=c: c.result)) for c in made] + [("%s.run()" % order[0].label, order[0].run)]
+        ctx.case("foreign-random " + repr(w.built), sample=None)
+        ctx.count("foreign_object_cases")
+        _history(ctx, w, [], steps, made, "a model spread over two programs and free-standing commands (references across by object)")
+
+
+def reused_arguments(ctx):
+    """Argument structures belong to the caller: the same dictionary / list objects are handed to add_command for several Programs (one model applied to
+    several data sets), and a program is built again from the `arguments` of the commands of one that has run (with one input changed).  A name in such a
+    structure stands, in every program, for the command of that name in THAT program: each program executes its own commands once and feeds its consumers
+    with its own commands' finished results"""
+    from collections import OrderedDict
+    from .. import apihist
+    from mpilot.program import Program
+    rng = ctx.rng
+    for rep in range(ctx.budget(10, 300)):
+        # -- one set of argument objects, several programs whose source values differ
+        n = rng.randrange(3, 8)
+        spec = apihist.rand_spec(rng, n)
+        if not any("Many" in r or "Nested" in r for _n, _v, r in spec):
+            spec.append(("c%d" % n, 7, {"Many": [spec[0][0], spec[-1][0]], "Nested": [[spec[0][0]], [spec[1][0]]]}))
+        owned = dict((name, apihist.fresh_args(value, refs)) for name, value, refs in spec)        # the caller's objects, reused below
+        tuples = rng.random() < 0.2                                                                 # (tuples are accepted for lists: they cannot be edited in place)
+        if tuples:
+            for a in owned.values():
+                for k in a:
+                    if isinstance(a[k], list):
+                        a[k] = tuple(tuple(x) if isinstance(x, list) else x for x in a[k])
+        k = rng.randrange(2, 4)
+        mode = rng.choice(["each program run before the next is built", "all built, then run in building order", "all built, then run in reverse order", "a result read before the next is built"])
+        w = apihist.World()
+        progs, steps = [], []
+
+        def variant(j):
+            return [(name, value + (100000 * j if not refs else 0), refs) for name, value, refs in spec]
+
+        def args_of(j):
+            def f(name, value, refs):
+                a = owned[name]
+                a["Value"] = value
+                return a
+            return f
+        ops = []
+        ok = True
+        ctx.case("reused-args %r %s %d %s" % (spec, mode, k, tuples), sample=None)
+        ctx.count("reused_argument_cases")
+        what = "one set of argument objects%s handed to add_command for %d programs (%s)" % (" (lists given as tuples)" if tuples else "", k, mode)
+        for j in range(k):
+            try:
+                p = apihist.build(w, "P%d" % j, variant(j), args_of(j))
+            except BaseException as e:      # noqa
+                ctx.fail("%s: building program no. %d failed with %s" % (what, j, progrun.classify(e)), w.describe(ops))
+                ok = False
+                break
+            progs.append(p)
+            if mode.startswith("each"):
+                ok = _history(ctx, w, ops, [("P%d.run()" % j, p.run)], list(p.commands.values()), what)
+            elif mode.startswith("a result"):
+                last = p.commands[spec[-1][0]]
+                ok = _history(ctx, w, ops, [("P%d.commands[%r].result" % (j, last.result_name), (lambda c=last: c.result))], [last], what)
+            if not ok:
+                break
+        if not ok:
+            continue
+        order = progs if "reverse" not in mode else progs[::-1]
+        _history(ctx, w, ops, [("%s.run()" % p.label, p.run) for p in order] + [("%s.run()" % order[0].label, order[0].run)], [c for p in progs for c in p.commands.values()], what)
+    for rep in range(ctx.budget(10, 300)):
+        # -- a program that has run, built again from the arguments of its commands (one source value changed)
+        n = rng.randrange(3, 8)
+        spec = apihist.rand_spec(rng, n)
+        if not any("Many" in r or "Nested" in r for _n, _v, r in spec):
+            spec.append(("c%d" % n, 7, {"Many": [spec[0][0], spec[-1][0]], "Nested": [[spec[1][0]], [spec[0][0]]]}))
+        w = apihist.World()
+        origin = rng.choice(["from_source", "add_command"])
+        hand = rng.choice(["values", "values", "Argument objects"])
+        used = rng.choice(["run()", "run()", "a result read", "nothing"])
+        order = list(range(len(spec)))
+        rng.shuffle(order)
+        ctx.case("rebuilt %r %s %s %s %r" % (spec, origin, hand, used, order), sample=None)
+        ctx.count("rebuilt_program_cases")
+        what = "a program (%s) rebuilt through add_command from the %s of its commands' `arguments` after %s, one source value changed" % (origin, hand, used)
+        ops = []
+        try:
+            first = apihist.load(w, "first", spec, order) if origin == "from_source" else apihist.build(w, "first", spec)
+        except BaseException as e:      # noqa
+            ctx.fail("%s: the first program could not be built: %s" % (what, progrun.classify(e)), w.describe(ops))
+            continue
+        last = first.commands[spec[-1][0]]
+        if used != "nothing" and not _history(ctx, w, ops, [("first.run()", first.run)] if used == "run()" else [("first.commands[%r].result" % last.result_name, (lambda: last.result))],
+                                              list(first.commands.values()) if used == "run()" else [last], what):
+            continue
+        changed = [(name, value + (100000 if not refs else 0), refs) for name, value, refs in spec]
+
+        def args_of(name, value, refs):
+            c = first.commands[name]
+            if hand == "values":
+                a = OrderedDict((x.name, x.value) for x in c.arguments)
+                a["Value"] = value
+            else:
+                from mpilot.arguments import Argument
+                a = OrderedDict((x.name, x if x.name != "Value" else Argument("Value", value)) for x in c.arguments)
+            return a
+        try:
+            second = apihist.build(w, "second", changed, args_of, how="built from first.commands[name].arguments")
+        except BaseException as e:      # noqa
+            ctx.fail("%s: add_command refused the arguments of a loaded command: %s" % (what, progrun.classify(e)), w.describe(ops))
+            continue
+        _history(ctx, w, ops, [("second.run()", second.run), ("first.run()", first.run), ("second.run()", second.run)], list(second.commands.values()) + list(first.commands.values()), what)
+
+
+def interrupted_runs(ctx):
+    """histories in which a run()/result access is cut short by something that is no Exception - KeyboardInterrupt (Ctrl-C), SystemExit, GeneratorExit,
+    asyncio's CancelledError, a watchdog's own BaseException - raised inside a body (before or after it has read its inputs) and caught by the caller, once or
+    twice; then the program is simply used again.  It is the same acyclic model: the next run() completes every command exactly once, nothing that had
+    completed runs again, every consumer is fed by finished results; a further run()/read executes nothing"""
+    import asyncio
+    from .. import apihist
+    rng = ctx.rng
+    m = apihist.lib()
+    kinds = [KeyboardInterrupt, SystemExit, GeneratorExit, asyncio.CancelledError, m.Timeout]
+    plan = [(kind, when, origin) for kind in kinds for when in ("before", "after") for origin in ("from_source", "add_command")]
+    plan += [(rng.choice(kinds), rng.choice(["before", "after"]), rng.choice(["from_source", "add_command"])) for _ in range(ctx.budget(10, 600))]
+    for kind, when, origin in plan:
+        n = rng.randrange(2, 8)
+        spec = apihist.rand_spec(rng, n)
+        w = apihist.World()
+        order = list(range(n))
+        rng.shuffle(order)
+        p = apihist.load(w, "p", spec, order) if origin == "from_source" else apihist.build(w, "p", spec)
+        victim = rng.choice(spec)[0]
+        times = rng.choice([1, 1, 2])
+        exc = kind("interrupted") if kind is not SystemExit else SystemExit(3)
+        if not issubclass(kind, BaseException) or issubclass(kind, Exception):
+            continue                    # (CancelledError is an Exception before Python 3.8)
+        m.STOP[victim] = [exc, when, times]
+        w.built.append("the body of %s raises %s %s reading its inputs, the next %d time(s) it is entered; the caller catches it" % (victim, kind.__name__, when, times))
+        names = [s[0] for s in spec]
+        steps = []
+        for _i in range(times):
+            first = rng.choice(["run", "run", "read"])
+            steps.append(("p.run()", p.run) if first == "run" else (lambda nm: ("p.commands[%r].result" % nm, (lambda: p.commands[nm].result)))(rng.choice(names)))
+        steps += [("p.run()", p.run)] * (times + 1)       # (a result read above may not have reached the interrupted command)
+        ctx.case("interrupted %r %s %s %s %s %d %r" % (spec, kind.__name__, when, origin, victim, times, [s[0] for s in steps]), sample=None)
+        ctx.count("interrupted_run_cases")
+        ctx.count("interrupted_by:" + kind.__name__)
+        what = "a run interrupted by %s inside the body of %s (%s it read its inputs), then the program used again" % (kind.__name__, victim, when)
+        ops = []
+        if not _history(ctx, w, ops, steps, list(p.commands.values()), what, tolerated=(exc,)):
+            continue
+        if m.STOP[victim][2] != 0:
+            continue
+        n_events = len(m.EVENTS)
+        if _history(ctx, w, ops, [("p.commands[%r].result" % nm, (lambda nm=nm: p.commands[nm].result)) for nm in names] + [("p.run()", p.run)], list(p.commands.values()), what) \
+                and len(m.EVENTS) != n_events:
+            ctx.fail("%s: after the completed run, reading results and run() executed %r again" % (what, [w.who(x) for k, x in m.EVENTS[n_events:] if k == "+"]), w.describe(ops))
+    m.STOP.clear()
+
+
 def run(ctx):
     ctx.check_proofs(["MPilot.Props.C01", "MPilot.Props.C01Hist", "MPilot.Props.C01Edit"])
     model = common.Model()
@@ -625,6 +882,9 @@ def run(ctx):
     typed_consumers(ctx)
     api_spellings(ctx)
     scale_ladder(ctx)
+    foreign_objects(ctx)
+    reused_arguments(ctx)
+    interrupted_runs(ctx)
     return ctx.finish(
         rule="scenarios = (acyclic graph over opaque logging commands with references through direct parameters, lists and nested lists, "
              "repeated references, fan-in <= 5; textual order: every permutation for <= 3 commands, sampled above; chains of 20-60; "
